@@ -29,11 +29,28 @@ def run_shard(mod, shard_cases, out_path, case_timeout):
             t0 = time.time()
             rec = {"idx": idx}
             try:
-                signal.alarm(case_timeout)
+                ct = mod.case_timeout(spec) if hasattr(mod, "case_timeout") else case_timeout
                 try:
-                    res = mod.run_case(spec)
-                finally:
-                    signal.alarm(0)
+                    signal.alarm(ct)
+                    try:
+                        res = mod.run_case(spec)
+                    finally:
+                        signal.alarm(0)
+                except CaseTimeout:
+                    # Wall clock is never a verdict. If the module supports it, the case is re-run
+                    # under a *logical* step budget (interpreted lines per API call of the code under
+                    # test); only that deterministic budget can turn a hang into a violation.
+                    budget = getattr(mod, "STEP_BUDGET_RERUN", None)
+                    if not budget:
+                        raise
+                    spec2 = dict(spec)
+                    spec2["_stepbudget"] = budget
+                    signal.alarm(ct * 6 + 60)
+                    try:
+                        res = mod.run_case(spec2)
+                    finally:
+                        signal.alarm(0)
+                    res.setdefault("counters", {})["watchdog_rerun_with_step_budget"] = 1
                 rec.update(res)
             except CaseTimeout:
                 rec.update(
